@@ -45,8 +45,10 @@ def edits(rng, text):
         i = rng.randrange(len(junk))
         src = junk[rng.choice(atom_idx) % len(junk)]
         junk.insert(i, rng.choice(["REMARK 465 junk", "ANISOU" + src[6:], "CONECT    1    2", "SIGATM" + src[6:], "HETNAM     XXX JUNK", "",
-                                   "SEQRES   1 A   10  ALA ALA", "MASTER", "atom  " + src[6:], "ENDMDL"]))
-    out.append(("junk records", "\n".join(junk) + "\n"))
+                                   "SEQRES   1 A   10  ALA ALA", "MASTER", "atom  " + src[6:], "ENDMDL", "END", "END   "]))
+    # ... and one END record early in the file (concatenated files carry END records between their parts)
+    junk.insert(atom_idx[len(atom_idx) // 3], "END")
+    out.append(("junk records (REMARK, ANISOU, CONECT, MASTER, END, ... anywhere)", "\n".join(junk) + "\n"))
     # waters / ignorable residues: HETATM and ATOM tagged, also at the very start and right after TER
     wat = list(lines)
     w = lambda tag, rn, k: f"{tag}{9000 + k:>5d}  O   {rn} W{900 + k:>4d}    {10.0 + k:8.3f}{5.0:8.3f}{-3.0:8.3f}  1.00 20.00"
